@@ -22,6 +22,7 @@ CORPUS = [
     [{"x": {"a": 1, "b": 2, "c": 3, "d": 4, "e": 5},
       "y": [{"a": 1, "b": 2, "c": 3, "d": 4, "e": 5}, {"a": None, "b": 2, "c": 3, "d": 4, "e": 5}]}],
     [{"s": "😀"}, {"s": "x"}],
+    [{"name": [None]}, {"name": None}],
 ]
 
 
@@ -115,7 +116,13 @@ def check_case(inputs, cmps, job, registry):
                 except stages.TooCostly:
                     raise
                 except Exception as e:  # noqa
-                    return {"kind": "pydantic-rejects-sample", "sample": s, "observed": f"{type(e).__name__}: {str(e)[:500]}",
+                    kind = "pydantic-rejects-sample"
+                    import re as _re
+                    fields = _re.findall(r"\n(\w+)\n  value is not a valid (?:list|dict)", str(e))
+                    if fields and all(_re.search(r"\b%s: Optional\[(List\[None\]|Dict\[str, None\])\]" % f, text) for f in fields):
+                        # pydantic.v1 does not accept None for Optional[List[None]] / Optional[Dict[str, None]]
+                        kind = "F4-pydantic-optional-container-of-none"
+                    return {"kind": kind, "sample": s, "observed": f"{type(e).__name__}: {str(e)[:500]}",
                             "text": text[:4000]}, None
     return None, None
 
